@@ -67,8 +67,8 @@ where
             // Check methods (e.g.: return type of async methods)
             check_methods(&ast, &mut fr.diagnostics);
 
-            // Sort diagnostics by line
-            fr.diagnostics.sort_by_key(|d| d.range.start.line_col.0);
+            // Sort diagnostics by position
+            fr.diagnostics.sort_by_key(|d| d.range.start.line_col);
 
             (
                 id,
@@ -168,9 +168,14 @@ fn resolve_type(
     }
 
     // Unresolved type is in import path?
-    if let Some(import_path) = imports.iter().find(|import_path| {
-        &type_.name == *import_path || import_path.ends_with(&format!(".{}", type_.name))
-    }) {
+    // Note: take the smallest matching import (the iteration order of the set is arbitrary)
+    if let Some(import_path) = imports
+        .iter()
+        .filter(|import_path| {
+            &type_.name == *import_path || import_path.ends_with(&format!(".{}", type_.name))
+        })
+        .min()
+    {
         // Import of a built-in Android type => the type is that built-in
         if let Some(android) = ast::AndroidTypeKind::from_qualified_name(import_path) {
             type_.kind = ast::TypeKind::AndroidType(android);
@@ -309,9 +314,11 @@ fn check_declared_parcelables(
             .fold(HashMap::new(), |mut map, declared_parcelable| {
                 let qualified_name = declared_parcelable.get_qualified_name();
 
+                // Note: take the smallest conflicting import (the iteration order of the map is arbitrary)
                 if let Some((_, conflicting_import)) = imports
                     .iter()
-                    .find(|(_, import)| import.name == declared_parcelable.name)
+                    .filter(|(_, import)| import.name == declared_parcelable.name)
+                    .min_by_key(|(qualified_import, _)| *qualified_import)
                 {
                     diagnostics.push(Diagnostic {
                         kind: DiagnosticKind::Error,
